@@ -52,3 +52,52 @@ func kindNameOf(v reflect.Value) string {
 	}
 	return ""
 }
+
+// OpSetHistory emits one `HS` record: three Sets on ONE object — a number into the bytes leaf A through a buffer, a
+// number into the text leaf B through the same buffer, then a longer number into A without a buffer — and whether
+// the third Set changed anything off its path (the values handed out through the buffer sit next to each other in
+// the buffer's array; C03 demands that the third call leaves B alone).
+func OpSetHistory(o *Out, e *TypeEntry, v reflect.Value, pathA, pathB []string) {
+	vtok := Ser(v)
+	arg, root := MakeArg(e.Type, DeepCopy(v), FormPtr)
+	buf := inspector.NewByteBuffer(64)
+	out := "kept"
+	func() {
+		defer func() {
+			if r := recover(); r != nil {
+				out = "panic"
+			}
+		}()
+		if err := e.Ins.SetWithBuffer(arg, 1, buf, pathA...); err != nil {
+			out = "err"
+			return
+		}
+		if err := e.Ins.SetWithBuffer(arg, 22222, buf, pathB...); err != nil {
+			out = "err"
+			return
+		}
+		mask := func() string {
+			c := DeepCopy(root())
+			p := reflect.New(e.Type)
+			p.Elem().Set(c)
+			if el, ok := NavReflect(p.Elem(), pathA); ok && el.CanSet() {
+				el.Set(reflect.Zero(el.Type()))
+				return Ser(p.Elem())
+			}
+			if el, ok := NavReflect(p.Elem(), pathB); ok {
+				return Ser(el)
+			}
+			return ""
+		}
+		before := mask()
+		if err := e.Ins.Set(arg, 123456, pathA...); err != nil {
+			out = "err"
+			return
+		}
+		if mask() != before {
+			out = "changed"
+		}
+	}()
+	vid := o.DeclareVal(e, vtok)
+	o.Op("HS " + e.Tid + " p " + vid + " | " + PathToks(pathA) + " | " + PathToks(pathB) + " | " + out)
+}
